@@ -339,9 +339,27 @@ def evaluate(case, env):
     if base[1] not in ("",):
         raise core.HarnessError("generated module raises %s\n%s" % (base[1], runner.LAST_TB))
     regs, host = regions(case)
+    # expression regions whose code occurs a second time in the MODULE (host or a sibling definition) are what similar=True is
+    # about: they are always kept, and asked once more as ExtractMethod / ExtractVariable with similar=True
+    tree_all = ast.parse(src)
+    dumps = {}
+    for n_ in ast.walk(tree_all):
+        if isinstance(n_, (ast.BinOp, ast.Call, ast.Compare, ast.BoolOp, ast.IfExp)):
+            dumps[ast.dump(n_)] = dumps.get(ast.dump(n_), 0) + 1
+    lines0, starts0 = _offsets(src)
+    twin_regs = []
+    for n_ in ast.walk(host):
+        if isinstance(n_, (ast.BinOp, ast.Call, ast.Compare, ast.BoolOp, ast.IfExp)) and dumps.get(ast.dump(n_), 0) >= 2:
+            if isinstance(n_, ast.Call) and isinstance(n_.func, ast.Name) and n_.func.id == "print":
+                continue
+            twin_regs.append(("expr", starts0[n_.lineno - 1] + n_.col_offset, starts0[n_.end_lineno - 1] + n_.end_col_offset, {"twin": True, "lines": (n_.lineno, n_.end_lineno), "type": type(n_).__name__}))
     if len(regs) > 60:
         step = -(-len(regs) // 60)
         regs = regs[::step]
+    forced = {}
+    for k_, tr in enumerate(twin_regs[:8]):
+        forced[len(regs)] = ("method" if k_ % 2 == 0 else "variable", {"similar": True, "global_": False, "kind": None})
+        regs.append(tr)
     lines, starts_ = _offsets(src)
     head = "\n".join(lines[: (host.lineno - 1) - (2 if case["method"] else 0)])
     if case["method"]:
@@ -363,6 +381,10 @@ def evaluate(case, env):
                 refac, rname = ExtractMethod, "method"
             if opts["kind"] in ("method", "staticmethod", "classmethod") and not case["method"]:
                 opts = OPTION_CYCLE[idx % 4]
+            if idx in forced:
+                rname, opts = forced[idx][0], dict(forced[idx][1])
+                refac = ExtractVariable if rname == "variable" else ExtractMethod
+                out.labels["twin_region_with_similar"] += 1
             if refac is ExtractVariable:
                 opts = {"similar": opts["similar"], "global_": opts["global_"]}
             sub = {"kind": kind, "region": [start, end], "what": rname, "opts": opts, "text": src[start:end][:80]}
